@@ -2,8 +2,12 @@ pub(crate) mod mutex;
 pub(crate) mod rwlock;
 
 use core::marker::PhantomData;
+#[cfg(not(tiny_std_verif))]
 use core::sync::atomic::AtomicU32;
+#[cfg(not(tiny_std_verif))]
 use core::sync::atomic::Ordering::Relaxed;
+#[cfg(tiny_std_verif)]
+use sc::verif::{AtomicU32, Ordering::Relaxed};
 use rusl::error::Errno;
 use rusl::futex::futex_wait;
 use rusl::platform::FutexFlags;
